@@ -134,6 +134,8 @@ func c15Run(t *testing.T, s Scenario, src verifsim.DecisionSource, keep bool) *R
 	kills := 0
 	var procNode *verifsim.Node
 
+	var baseQuery []byte // content of outfile.query when the current process started
+	baseQueryExists := false
 	inspect := func(where string) {
 		if cur < 0 || outPath == "" {
 			return
@@ -142,6 +144,16 @@ func c15Run(t *testing.T, s Scenario, src verifsim.DecisionSource, keep bool) *R
 		content, err := os.ReadFile(outPath)
 		exists := err == nil
 		pointsInspected++
+		if exists {
+			// beside an outfile there is a whole query text at any instant: the one
+			// that was there when this run started or this run's (never a torn,
+			// emptied or missing file)
+			q, qerr := os.ReadFile(outPath + ".query")
+			if !(qerr == nil && (string(q) == query || (baseQueryExists && bytes.Equal(q, baseQuery)))) && (baseQueryExists || !baseExists) {
+				fail("query-file-mismatch", fmt.Sprintf("process %d at %s: the outfile exists but %s.query holds %q (error %v), neither this run's query text nor the one that was there before", cur, where, "outfile", trunc(string(q), 80), qerr))
+				return
+			}
+		}
 		if p.Append {
 			if baseExists && (!exists || !bytes.HasPrefix(content, base)) {
 				fail("append-altered-earlier-rows", fmt.Sprintf("process %d (append) at %s: the outfile no longer starts with the %d bytes it held before this run", cur, where, len(base)))
@@ -244,7 +256,9 @@ func c15Run(t *testing.T, s Scenario, src verifsim.DecisionSource, keep bool) *R
 			if p.Append {
 				ap = "append "
 			}
-			query = fmt.Sprintf("select g,count(n),sum(n) group by g interval 1 logformat generickv outfile %s%s", ap, outPath)
+			// consecutive runs differ in their query text (same result: there are at
+			// most 5 groups)
+			query = fmt.Sprintf("select g,count(n),sum(n) group by g%s interval 1 logformat generickv outfile %s%s", PickStr(pi, "", " limit 1000", " limit 999"), ap, outPath)
 			a := DefaultArgs()
 			a.NoColor = true
 			a.QueryStr = query
@@ -257,6 +271,8 @@ func c15Run(t *testing.T, s Scenario, src verifsim.DecisionSource, keep bool) *R
 			base, _ = os.ReadFile(outPath)
 			_, err := os.Stat(outPath)
 			baseExists = err == nil
+			baseQuery, err = os.ReadFile(outPath + ".query")
+			baseQueryExists = err == nil
 			fsParks = 0
 			diskWrites, diskFull = 0, false
 			procNode = w.Sim.NewNode(fmt.Sprintf("proc%d", pi), "client", "clienthost")
